@@ -1,8 +1,9 @@
 SPECIFICATION Spec
-CONSTANTS Ops = {"RETURNDATACOPY", "CALLDATACOPY", "CODECOPY"}
- FullOps = {"RETURNDATACOPY", "CALLDATACOPY", "CODECOPY"}
- SampleMod = 1
- SampleSeed = 0
+CONSTANTS Ops <- AllOps
+ FullOps <- QuickFull
+ FullData = {"EXTCODECOPY"}
+ SampleMod = 16
+ SampleSeed = @SEED@
  Model = "exact"
 INVARIANTS TypeOK RangesDecided TinyNeverBetter StaticRefusesWrites StaticOnlyAddsFailures ReturnDataBounds PaddedCopies ZeroLengthIsFree ContentsDefined ImplBoundsAgree
 CHECK_DEADLOCK FALSE
